@@ -44,6 +44,16 @@ def gen(rng, tier):
         rle = G.rare_rle(rng, labs)
         yield {'trajs': None, 'rle': rle, 'lag': 1, 'start': labs[0], 'steps': rng.choice([5, 50]), 'seed': rng.randrange(2**31),
                'alpha': akind, 'tmat': None}
+    for _ in range(2 if tier == 'quick' else 12):       # chains longer than 4096 / 8192 frames on a model without self transitions
+        k = rng.randint(3, 5)
+        labs, akind = G.alphabet(rng, k=k)
+        rng.shuffle(labs)
+        t, cur = [], 0
+        for _i in range(rng.randint(60, 120)):
+            t.append(labs[cur])
+            cur = (cur + rng.choice([1, 1, 2])) % k
+        yield {'trajs': [t], 'lag': 1, 'start': t[0], 'steps': rng.choice([4097, 4100, 8193, 9000]), 'seed': rng.randrange(2**31),
+               'alpha': akind + '+long-chain', 'tmat': None}
     for _ in range(2 if tier == 'quick' else 12):       # more than 64 / 128 / 256 states
         trajs, tag = G.size_classes(rng, sticky=0.5)
         while tag != 'many-states':
